@@ -6,7 +6,8 @@
    of the falsifier that they *are*, produced with work independent of the history length.
    Partial: CPU time itself is outside any Gallina model. *)
 From Coq Require Import ZArith List String Bool.
-From Hexital Require Import Base.Prelude Base.Num Model.Candle Spec.Steppers Proofs.SpecGeneric.
+From Hexital Require Import Base.Prelude Base.Num Model.Manager Model.Candle Model.Readings Model.Engine
+  Spec.Steppers Proofs.SpecGeneric Proofs.EngineProofs Proofs.WorkProofs.
 Local Open Scope Z_scope.
 
 Theorem C07_state_bounded_by_window :
@@ -16,3 +17,24 @@ Theorem C07_state_bounded_by_window :
   Z.of_nat (List.length (s_buf O s')) <= window_of O k.
 Proof. exact state_bounded. Qed.
 Print Assumptions C07_state_bounded_by_window.
+
+(* Readings computed per append, in the engine model: [leaf_steps] is the loop of calculate()
+   with a counter of _calculate_reading invocations (it returns the loop's own result,
+   leaf_steps_loop).  After appending k fresh candles to a calculated leaf indicator with at
+   least two candles of history, calculate() makes exactly k invocations - independent of the
+   length of the history. *)
+Theorem C07_instrumented_loop_is_the_loop :
+  forall (O : NumOps) (I : ind O) (calc : store O -> Z -> res (val O)) idxs st,
+  leaf_loop O I calc idxs st = ('(_, r) <- leaf_steps O I calc idxs st ;; Ok r).
+Proof. intros. apply leaf_steps_loop. Qed.
+Print Assumptions C07_instrumented_loop_is_the_loop.
+
+Theorem C07_one_reading_per_appended_candle_leaf :
+  forall (O : NumOps) (I : ind O) (calc : store O -> Z -> res (val O)), Causal O I calc ->
+  forall (cs : store O) (new : list (cd (payload O))) (r : store O),
+  IsCanon O I calc cs -> (2 <= List.length cs)%nat -> Forall (fresh O I) new ->
+  leaf_calculate O I calc (cs ++ new) = Ok r ->
+  leaf_steps O I calc (zrange (Z.of_nat (find_calc_index O I (cs ++ new))) (zlen (cs ++ new))) (cs ++ new)
+  = Ok (List.length new, r).
+Proof. intros O I calc HC cs new r Hc Hl Hf Hr. eapply append_steps; eassumption. Qed.
+Print Assumptions C07_one_reading_per_appended_candle_leaf.
